@@ -8,8 +8,10 @@ import Nq.SmtpOut
 import Nq.SmtpIn
 import Nq.SmtpIO
 import Nq.Spec.Wire
+import Nq.SmtpEnv
 
 open Nq Nq.SmtpOut Nq.SmtpIn Nq.Wire Drv Drv.SmtpPlan
+open Nq.SmtpEnv (mangle cmdLine mailPre rcptPre dataCmd quitCmd heloCmd isOneLine cleanAddr quoteNeed lastAt hasCRLF crlfSpec)
 
 /-- the property, evaluated on what the implementation transmitted for message `m` -/
 def oracleC06 (m out : Bytes) : Bool :=
@@ -43,8 +45,60 @@ def splitPlan (tok : String) : Option (Plan × Plan × Nat × Nat) :=
       | _, _, _ => none
   | _ => none
 
+/-- theorem C06_refused_canon as a predicate: the message is to be refused iff `canon m` is non-empty and does not end in LF -/
+def refusedSpec (m : Bytes) : Bool := !(canon m).isEmpty && (canon m).getLast? != some LF
+
+/-- envelope case `E <sender> <rcpt> <msg> <K|P|T> <seg,seg,…>`: the program's addrmangle() + smtp() against the scripted
+server; seg = the bytes of one write() on the socket.  DISAGREE: the write()s are HELO, `cmdLine mailPre sender`,
+`cmdLine rcptPre rcpt`, DATA, `rblast msg`, QUIT (nothing after DATA for a refused message).  ORACLE (theorem
+C06_envelope_one_line on the implementation's output): the MAIL / RCPT write is exactly one line iff the address is
+free of CR and LF; HELO and DATA are one line each. -/
+def handleEnv (st : Stats) (line sh rh mh status segh : String) : IO Stats := do
+  let segs? : Option (List Bytes) := if segh == "-" then some [] else (segh.splitOn ",").mapM unhex
+  match unhex sh, unhex rh, unhex mh, segs? with
+  | some s, some r, some m, some segs =>
+    let mut st := { st with cases := st.cases + 1 }
+    st := st.bump "env-cases"
+    st := st.bump ("env-status" ++ status)
+    if !cleanAddr s || !cleanAddr r then st := st.bump "env-address-with-CR-or-LF"
+    if (match lastAt s with | some (b, _) => quoteNeed b | none => false) ||
+       (match lastAt r with | some (b, _) => quoteNeed b | none => false) then st := st.bump "env-box-quoted"
+    if lastAt s == none || lastAt r == none then st := st.bump "env-address-without-at"
+    let pre := [heloCmd [104], cmdLine mailPre s, cmdLine rcptPre r, dataCmd]
+    let (expSt, expSegs) := match rblast m with
+      | some e => ("K", pre ++ [e, quitCmd])
+      | none => ("P", pre)
+    if expSt != status || expSegs != segs then
+      IO.println s!"DISAGREE envelope sender={sh} rcpt={rh} msg={mh} impl={status} {segh} model={expSt} {",".intercalate (expSegs.map hex)}"
+      st := { st with disagree := st.disagree + 1 }
+    let seg (i : Nat) : Bytes := segs.getD i []
+    let okLines := segs.length ≥ 4 && isOneLine (seg 0) && (isOneLine (seg 1) == cleanAddr s) &&
+                   (isOneLine (seg 2) == cleanAddr r) && seg 3 == dataCmd
+    if !okLines then
+      IO.println s!"ORACLE envelope sender={sh} rcpt={rh} msg={mh} impl={status} segs={segh} envelope_command_not_one_line_for_a_clean_address_or_commands_missing"
+      st := { st with oracle := st.oracle + 1 }
+    -- theorem C06_envelope_crlf on the implementation's output: the address as it stands between "<" and ">CRLF" has a CR LF pair iff crlfSpec
+    let mang (i : Nat) (pre : Bytes) : Bytes := (((seg i).drop pre.length).reverse.drop 3).reverse
+    if segs.length ≥ 3 && (hasCRLF (mang 1 mailPre) != crlfSpec s || hasCRLF (mang 2 rcptPre) != crlfSpec r) then
+      IO.println s!"ORACLE envelope sender={sh} rcpt={rh} msg={mh} impl={status} segs={segh} CRLF_pair_in_address_differs_from_spec"
+      st := { st with oracle := st.oracle + 1 }
+    if crlfSpec s || crlfSpec r then st := st.bump "env-CRLF-pair-copied-verbatim"
+    if (hasCRLF s && !crlfSpec s) || (hasCRLF r && !crlfSpec r) then st := st.bump "env-CRLF-pair-escaped-in-box"
+    if (status == "P") != refusedSpec m || status == "T" then
+      IO.println s!"ORACLE envelope sender={sh} rcpt={rh} msg={mh} impl={status} refusal_differs_from_criterion"
+      st := { st with oracle := st.oracle + 1 }
+    if status == "K" && !(oracleC06 m (seg 4)) then
+      IO.println s!"ORACLE envelope sender={sh} rcpt={rh} msg={mh} payload={hex (seg 4)} decoded_differs_or_terminator_or_bare_lf"
+      st := { st with oracle := st.oracle + 1 }
+    if st.samples < 5 && !cleanAddr s && s.length ≥ 4 && s.contains 64 then
+      IO.println s!"SAMPLE envelope sender={sh} MAIL={hex (seg 1)}"
+      st := { st with samples := st.samples + 1 }
+    return st
+  | _, _, _, _ => IO.println s!"DISAGREE unparsable line {line}"; return { st with disagree := st.disagree + 1 }
+
 def handle (sigs : SigRef) (st : Stats) (line : String) : IO Stats := do
   match fields line with
+  | ["E", sh, rh, mh, status, segh] => handleEnv st line sh rh mh status segh
   | [chunk, inh, status, outh, nwS, pS, bufh] =>
     match unhex inh, unhex outh, unhex bufh, splitPlan chunk with
     | some m, some out, some buffered, some (rplan, wplan, ibuf, obuf) =>
@@ -99,6 +153,12 @@ def handle (sigs : SigRef) (st : Stats) (line : String) : IO Stats := do
       if status == "P" && (m.isEmpty || m.getLast? == some LF) then
         IO.println s!"ORACLE in={inh} chunk={chunk} impl={status} out={outh} complete_last_line_refused"
         st := { st with oracle := st.oracle + 1 }
+      -- theorem C06_refused_canon on the implementation: without a failing call, refused iff canon m is non-empty and does not end in LF
+      if !anyFail && (status == "P") != refusedSpec m then
+        IO.println s!"ORACLE in={inh} chunk={chunk} impl={status} out={outh} refusal_differs_from_criterion(canon_nonempty_and_not_ending_in_LF)"
+        st := { st with oracle := st.oracle + 1 }
+      if refusedSpec m then st := st.bump "refused-by-criterion" 
+      if refusedSpec m && m.getLast? == some CR then st := st.bump "refused-ending-in-CR(even-run)"
       if status == "T" || (status == "R" && !rplan.hasFail) || (status == "D" && !wplan.hasFail) then
         IO.println s!"ORACLE in={inh} chunk={chunk} impl={status} out={outh} unexpected_exit"
         st := { st with oracle := st.oracle + 1 }
